@@ -390,7 +390,7 @@ package proxy
 // hands processRequest a responder that carries nothing from an earlier exchange.
 //@ props C06 C09 C10 C16 C02
 //@ func Proxy.handleHTTP
-//@   ghost callsite-requires [C02] processRequest sid(arg_key.Hex) == specKeyHex(proxyReq.TLS != nil ? sid("https") : sid("http"), sid(proxyReq.Method), sid(proxyReq.Host), sid(proxyReq.URL.Path), sid(proxyReq.URL.RawQuery))
+//@   ghost callsite-requires [C02] processRequest sid(arg_key.Hex) == specKeyHex(proxyReq.TLS != nil ? sid("https") : sid("http"), sid(proxyReq.Method), sid(proxyReq.Host), escpath(sid(proxyReq.URL.Path), sid(proxyReq.URL.RawPath)), sid(proxyReq.URL.RawQuery))
 //@   nopanic
 //@   assigns HeaderDirectives http.Request@proxyReq new:http.Request url.URL new:http.Response map_ ghost:upstream ghost:sfleader ghost:sfshared ghost:sferrs cache. map_map_cache.CacheKey atomic.Int64 ghost:mapsum ghost:fsinode ghost:jsize ghost:jexp ghost:handleinode ghost:isize ghost:icontent responder. ghost:httpstatus ghost:httpwrites ghost:respbody ghost:httperrs ghost:callcount metrics.
 //@   requires [C10] specRespEmpty(r)
